@@ -320,8 +320,18 @@ class Interp:
                 raw = re.sub(r'#\[doc="(?:[^"\\]|\\.)*"\]', "", it.get("raw", ""))
                 m_ = re.search(r"pub struct (\w+):\w+\{(.*)\}\s*$", raw)
                 if m_:
-                    names = [re.sub(r"\s*as\s*\w+$", "", x.strip()) for x in m_.group(2).split(";") if x.strip()]
-                    self._flagtys[m_.group(1)] = {n_: consts.get(n_) for n_ in names}
+                    tab = {}
+                    for x in m_.group(2).split(";"):
+                        x = x.strip()
+                        if not x:
+                            continue
+                        # `NAME;` (the crate's own wrapper macro: value = values::NAME) or `const NAME = path::TO::CONST;`
+                        m2 = re.fullmatch(r"(?:const\s+)?(\w+)\s*(?:=\s*([\w:\s]+?))?(?:\s*as\s*\w+)?", x)
+                        if not m2:
+                            continue
+                        src_name = (m2.group(2) or m2.group(1)).replace(" ", "").split("::")[-1]
+                        tab[m2.group(1)] = consts.get(src_name)
+                    self._flagtys[m_.group(1)] = tab
         ty, name = segs[-2], segs[-1]
         tab = self._flagtys.get(ty)
         if tab is not None and tab.get(name) is not None:
